@@ -321,6 +321,8 @@ def main(tier):
     results += pmap(run_both_flags, [0], jobs=1)
     for r in results:
         agg.add(r)
+    from . import mainwire
+    mainwire.add_to(agg, PROP, binary)
     by_role = {}
     for v in agg.violations:
         by_role.setdefault(v['role'], []).append(v)
@@ -367,7 +369,7 @@ def main(tier):
                      'each validator emits only diagnostics of its own code: asserted in the C06-C10 harnesses (wrong-code)',
                      'the diagnostics of the two async validators are outside'],
         stubs=['OpenAiClient::new_from_env'],
-        must_cover=['detect:d', 'detect:e', 'name-accepted', 'name-rejected', 'both-flags'],
+        must_cover=['main', 'detect:d', 'detect:e', 'name-accepted', 'name-rejected', 'both-flags'],
         explanation='instantiated validator kinds compared with {v : allowed(v) ∧ needed(v)} as Z3 formulas over the symbolic attribute and flag memberships')
 
 
